@@ -12,7 +12,10 @@ package c19
 import (
 	"os"
 	"strings"
+	"sync"
 
+	"github.com/lmorg/murex/lang"
+	"github.com/lmorg/murex/lang/types"
 	"github.com/lmorg/murex/zzverif/mx"
 	"github.com/lmorg/murex/zzverif/rt"
 )
@@ -105,4 +108,97 @@ func VerifC19Builtin() {
 		"a builtin reached an internal panic ('panic caught' report)")
 	rt.Assert(!crashed, "the crash handler reported 'Murex has crashed'")
 	rt.Assert(rt.RecoveredPanics() == 0, "murex recovered an internal panic while running the program")
+}
+
+// ---- malformed tables through the index builtins ----
+
+var (
+	verifOnce  sync.Once
+	verifTable struct {
+		dt   string
+		text []byte
+	}
+	verifTableTypes = []string{types.Generic, "csv", types.JsonLines, types.String}
+	verifIndexArgs  = []string{"a", "b", "c", "d", ":0", ":1", ":2", ":3", "0", "1", "2", "3", "*A", "*C", "*D", "*1", "*3"}
+)
+
+func verifDefine() {
+	rt.Persistent(func() {
+		verifOnce.Do(func() {
+			mx.Init()
+			lang.DefineFunction("verifc19emit", func(p *lang.Process) error {
+				p.Stdout.SetDataType(verifTable.dt)
+				_, err := p.Stdout.Write(verifTable.text)
+				return err
+			}, types.Any)
+		})
+	})
+}
+
+// VerifC19Table: `<table of any shape> -> [ sel ... ]` / `![ sel ]`: a heading row of 1..3 names and
+// up to `rows` data rows whose widths (0..4 cells) are arbitrary - ragged, empty and over-long
+// rows - as generic, csv, jsonl or str stdin; selectors by name, column, row and range. No crash.
+func VerifC19Table() {
+	verifDefine()
+	dt := verifTableTypes[rt.Choice("type", rt.Param("types"))]
+	names := []string{"a", "b", "c", "d"}
+	var rows [][]string
+	head := 1 + rt.Choice("heading", 3)
+	rows = append(rows, names[:head])
+	nr := rt.Choice("rows", rt.Param("rows")+1)
+	for r := 0; r < nr; r++ {
+		w := rt.Choice("width", 5)
+		row := make([]string, w)
+		for c := range row {
+			row[c] = string(rune('1' + r*4 + c))
+		}
+		rows = append(rows, row)
+	}
+	var sb strings.Builder
+	for _, row := range rows {
+		switch dt {
+		case "csv":
+			sb.WriteString(strings.Join(row, ","))
+		case types.JsonLines:
+			sb.WriteString("[")
+			for c, cell := range row {
+				if c > 0 {
+					sb.WriteString(",")
+				}
+				sb.WriteString("\"" + cell + "\"")
+			}
+			sb.WriteString("]")
+		default:
+			sb.WriteString(strings.Join(row, " "))
+		}
+		sb.WriteString("\n")
+	}
+	cmd := []string{"[", "!["}[rt.Choice("negate", 2)]
+	na := rt.Param("args")
+	if na > len(verifIndexArgs) {
+		na = len(verifIndexArgs)
+	}
+	block := "verifc19emit -> " + cmd + " " + verifIndexArgs[rt.Choice("sel", na)]
+	text := []byte(sb.String())
+	if rt.Choice("second", 2) == 1 {
+		block += " " + verifIndexArgs[rt.Choice("sel2", na)]
+	} else if dt != types.JsonLines && len(rows) > 1 && len(rows[1]) > 0 {
+		// single selector: the first cell of the first data row is an arbitrary printable byte
+		// (blank, comma, quote, bracket, ... - whatever shifts the columns); jsonl stdin is
+		// decoded by encoding/json (reflection codec: concrete bytes only)
+		c := rt.Byte("cell")
+		rt.Assume(rt.And(c >= ' ', c <= '~'))
+		text[strings.IndexByte(sb.String(), '\n')+1] = c
+	}
+	verifTable.dt, verifTable.text = dt, text
+	block += " ]"
+	rt.Note("table=" + sb.String() + " block=" + block)
+	stdout, stderr, _, err := mx.Run(block)
+	rt.Reach("table-returned")
+	if err != nil {
+		return
+	}
+	rt.Assert(!strings.Contains(stderr, "panic caught") && !strings.Contains(stdout, "panic caught"),
+		"an index builtin reached an internal panic on a malformed table ('panic caught' report)")
+	rt.Assert(rt.RecoveredPanics() == 0, "murex recovered an internal panic while indexing a malformed table")
 }
